@@ -69,6 +69,7 @@ type Method struct {
 	Varargs    bool `json:"varargs,omitempty"`    // the last of the Params parameters is written `String... rest`
 	WrapParams int  `json:"wrapParams,omitempty"` // 0 one line; 1 a continuation line after every third parameter; 2 one parameter per line, ")" on a line of its own
 	RichParams bool `json:"richParams,omitempty"` // annotated / nested-generic parameter types (commas inside annotations and type arguments)
+	SameLine   bool `json:"sameLine,omitempty"`   // a one-line getter/setter written on the line of the one-line getter/setter before it
 }
 
 type File struct {
@@ -145,10 +146,20 @@ type jw struct {
 	sb   strings.Builder
 	next int // number of the line that will be written next (1-based)
 	unit string
-	v    int // counter for fresh local names
+	v    int  // counter for fresh local names
+	join bool // the next line continues the line written last
 }
 
+// ln writes one line and returns its number. With w.join set the text is appended to the
+// line written last instead (two members on one line).
 func (w *jw) ln(depth int, s string) int {
+	if w.join {
+		w.join = false
+		text := strings.TrimSuffix(w.sb.String(), "\n")
+		w.sb.Reset()
+		w.sb.WriteString(text + " " + s + "\n")
+		return w.next - 1
+	}
 	n := w.next
 	if s != "" {
 		w.sb.WriteString(strings.Repeat(w.unit, depth))
@@ -637,9 +648,13 @@ func render(f File) fileTruth {
 			w.ln(1, fmt.Sprintf("int LIMIT%d = %d;", i, i))
 		}
 	}
-	for _, m := range f.Methods {
-		for i := 0; i < f.BlankLines; i++ {
-			w.ln(0, "")
+	for i, m := range f.Methods {
+		if oneLineAccessor := func(x Method) bool { return isGS(x.Kind) && x.OneLine && x.Doc == 0 }; m.SameLine && i > 0 && oneLineAccessor(m) && oneLineAccessor(f.Methods[i-1]) {
+			w.join = true
+		} else {
+			for i := 0; i < f.BlankLines; i++ {
+				w.ln(0, "")
+			}
 		}
 		t.Methods = append(t.Methods, w.method(1, m, f.Interface))
 	}
@@ -1195,6 +1210,14 @@ func classify(c Case, truths []fileTruth, want []finding, mode string) pbt.Verdi
 			if m.Kind == "default" || m.Kind == "static" {
 				labels["interface_method_with_body"] = true
 			}
+			if m.SameLine {
+				labels["two_accessors_on_one_line"] = true
+			}
+			for _, o := range f.Methods {
+				if o.Name == m.Name && (o.Params != m.Params || o.Kind != m.Kind) {
+					labels["overloaded_methods"] = true
+				}
+			}
 			if !isGS(m.Kind) && (strings.Contains(m.Name, "get") || strings.Contains(m.Name, "set")) {
 				labels["ordinary_name_containing_get_or_set"] = true
 			}
@@ -1673,6 +1696,32 @@ func sweepFiles(sc SweepCase) []File {
 			files = append(files, f)
 		}
 	}
+	// overloads (one name, two parameter lists) at the boundary of M; accessors sharing a line
+	for _, n := range []int{19, 20} {
+		f := mk(fmt.Sprintf("O%d", n))
+		f.Dir = "w"
+		for k := 0; k < n; k++ {
+			m := trivialMethod("normal", fmt.Sprintf("step%d", k/2))
+			m.Params = k % 2
+			f.Methods = append(f.Methods, m)
+		}
+		files = append(files, f)
+	}
+	for _, g := range []int{2, 3} {
+		for _, n := range []int{0, 20} {
+			f := mk(fmt.Sprintf("Pair%dx%d", g, n))
+			f.Dir = "w"
+			for k := 0; k < n; k++ {
+				f.Methods = append(f.Methods, trivialMethod("normal", fmt.Sprintf("step%d", k)))
+			}
+			for k := 0; k < g; k++ {
+				m := trivialMethod([]string{"getter", "setter"}[k%2], fmt.Sprintf("prop%d", k))
+				m.OneLine, m.SameLine = true, k > 0
+				f.Methods = append(f.Methods, m)
+			}
+			files = append(files, f)
+		}
+	}
 	for k, name := range tricky {
 		// two accessors and one method that is none: no data class
 		f := mk(fmt.Sprintf("NotData%d", k))
@@ -1989,8 +2038,20 @@ func genFile(t *rapid.T, idx int, used map[string]bool) File {
 		f.Fields = 2 // n0 and names, which the bodies mention
 	}
 	bigBudget := 3 // methods with a generated body per class; the others stay small
+	prevName, prevParams := "", 0
+	add := func(m Method, overload bool) {
+		if overload && m.Params == prevParams {
+			m.Params++ // overloads differ in their parameter lists
+		}
+		prevName, prevParams = m.Name, m.Params
+		f.Methods = append(f.Methods, m)
+	}
 	for k := 0; k < normal; k++ {
 		name := fmt.Sprintf("%s%d", methodNames[(k+idx)%len(methodNames)], k)
+		overload := k > 0 && rapid.IntRange(0, 5).Draw(t, "overload") == 5
+		if overload {
+			name = prevName // the name of the method before, with another parameter list
+		}
 		if f.Interface {
 			if bigBudget > 0 && rapid.IntRange(0, 3).Draw(t, "interfaceBody") == 3 && !pbt.Excluded(interfaceBodyFeature) {
 				// a default or static interface method is a method with a body like any other
@@ -1998,20 +2059,20 @@ func genFile(t *rapid.T, idx int, used map[string]bool) File {
 				m := genNormalMethod(t, name, true)
 				m.Kind = rapid.SampledFrom([]string{"default", "static"}).Draw(t, "interfaceBodyKind")
 				m.Mods = rapid.SampledFrom([]string{"", "public "}).Draw(t, "interfaceBodyMods") + m.Kind
-				f.Methods = append(f.Methods, m)
+				add(m, overload)
 				continue
 			}
 			m := Method{Kind: "abstract", Name: name,
 				Ret: rapid.SampledFrom(retPool).Draw(t, "iret"), Params: aroundOr(t, "iparams", []int{4, 5, 6, 7}, 0, 12, 4)}
 			genParamShape(t, &m)
-			f.Methods = append(f.Methods, m)
+			add(m, overload)
 			continue
 		}
 		big := bigBudget > 0 && (normal <= 4 || rapid.IntRange(0, 5).Draw(t, "big") == 5)
 		if big {
 			bigBudget--
 		}
-		f.Methods = append(f.Methods, genNormalMethod(t, name, big))
+		add(genNormalMethod(t, name, big), overload)
 	}
 	for k := 0; k < gs; k++ {
 		kind := "getter"
@@ -2025,6 +2086,9 @@ func genFile(t *rapid.T, idx int, used map[string]bool) File {
 			m.OneLine = rapid.IntRange(0, 2).Draw(t, "oneLine") == 2
 		}
 		pos := rapid.IntRange(0, len(f.Methods)).Draw(t, "gsPos")
+		if m.OneLine && pos > 0 && isGS(f.Methods[pos-1].Kind) && f.Methods[pos-1].OneLine {
+			m.SameLine = rapid.Bool().Draw(t, "sameLine") // `int getA() { .. } void setA(int a) { .. }` on one line
+		}
 		f.Methods = append(f.Methods[:pos], append([]Method{m}, f.Methods[pos:]...)...)
 	}
 	if !f.Interface {
@@ -2142,7 +2206,7 @@ func genSortCase(t *rapid.T) Case {
 	}
 	c.Ignore = genIgnore(t)
 	c.RelDir = rapid.Bool().Draw(t, "relDir")
-	if rapid.IntRange(0, 2).Draw(t, "otherDirStyle") == 2 {
+	if rapid.Bool().Draw(t, "otherDirStyle") {
 		c.DirStyle = rapid.IntRange(1, 3).Draw(t, "dirStyle")
 	}
 	if rapid.IntRange(0, 2).Draw(t, "otherFlagStyle") == 2 {
@@ -2167,12 +2231,14 @@ func genSweep(t *rapid.T) SweepCase {
 
 func init() {
 	pbt.SetProperty("C10")
-	pbt.Describe("Conventional Java classes/interfaces printed from a parameter vector by a line-tracking printer: per method the distance L between declaration line and closing brace, parameter count P, top-level if count I and classic switch count S (with nested ifs/switches, else-if chains written over several lines or on one line, ifs/switches inside for/while/do/try/synchronized/lambda bodies, and multi-line loop conditions as decoys that must not count), heights H of top-level if conditions; per class M ordinary methods (some named generate/select/send/serve...) and G getters/setters; 1-4 files per tree, optionally a package-info.java, x ignore lists (subsets of the seven kinds, sometimes other names) x sort on/off. Sub-check sweep (bounded-exhaustive, one evaluation): quick tier L{29..32} x P{4..7} x I{6..9} x H{2..5} without switches (256 one-method classes) + I{6..9} x S{6..9} on the diagonal of (L,P,H) (64); thorough tier the whole product L x P x I x S{0,6..9} x H (1280); both + M{0,1,18..21} x G{0,1,3} x class/interface (36) + interface P{4..7}; every chunk of 64 files is judged under all 128 ignore subsets, each with SortSmellByType. Sub-checks vec (API: BadSmellApp.AnalysisPath + IdentifyBadSmell + SortSmellByType) and cli (`coca bs -p DIR [-x kinds] [-s type]`, bs.json; biased to groups whose sizes ascend in report order) draw random vectors biased to the thresholds. Oracle: findings of the seven kinds computed from the printer's line record (kind, file, line for method-level kinds, size for sized kinds); other kinds are ignored. Non-trivial = some parameter at threshold-1/threshold/threshold+1 (L 29-31, P 4-6, M 19-21, I/S 7-9, H 3-5, or a class with 0/1 methods); distinct = the vector with ignore list, sort flag and entry point.",
-		"declarations are on one line without separate-line annotations; one top-level type per file; no nested types, varargs or default methods; constructors only where they cannot affect a method count near a threshold",
-		"getters/setters are conventional (getX() / setX(v), short bodies); ordinary method names do not start with get/set",
+	pbt.Describe("Conventional Java classes/interfaces printed from a parameter vector by a line-tracking printer: per method the distance L between declaration line and closing brace, parameter count P, top-level if count I and classic switch count S (with nested ifs/switches, else-if chains written over several lines or on one line, ifs/switches inside for/while/do/try/synchronized/lambda bodies, multi-line loop conditions, explicitly typed lambda parameters, block comments and long initialiser blocks full of ifs as decoys that must not count), heights H of top-level if conditions; per class M ordinary methods (some named generate/select/send/serve, some containing get/set inside the name: reset, forget, target, offset, or the usual companions toString/hashCode) and G getters/setters; parameter lists on one line or wrapped over several lines, with annotated / nested-generic parameter types, optionally ending in a variable-arity parameter; modifiers/return type on a line of their own; ordinary methods with an empty body on one line; default and static interface methods with bodies; class headers public / package-private / final / annotated / generic; LF or CRLF line ends; 1-4 files per tree (the same class name may recur in another directory; directory and class names containing test/Test that are no test files), optionally a package-info.java, x ignore lists (subsets of the seven kinds, a kind named twice, names that are no kind: unknown ones, another spelling, parts of kind names such as Class/long/Method) x sort on/off. Sub-check sweep (bounded-exhaustive, one evaluation): quick tier L{29..32} x P{4..7} x I{6..9} x H{2..5} without switches (256 one-method classes) + I{6..9} x S{6..9} on the diagonal of (L,P,H) (64); thorough tier the whole product L x P x I x S{0,6..9} x H (1280); both + M{0,1,18..21} x G{0,1,3} x class/interface (36) + interface P{4..7} + boundary shapes: P{4..7} x varargs x wrap style{0,1,2} x L{30,31} (48) and as interface methods (8), default methods L{30,31} x I{7,8} x H{3,4} (8), M{19,20} x G{0,2} with look-alike names (4), accessor pairs plus one look-alike method (8), overloads at M{19,20} (2), two or three accessors on one line with M{0,20} (4); every chunk of 64 files is judged under all 128 ignore subsets, each with SortSmellByType, and finally once more without ignore list on the same analysis. Sub-checks vec (API: BadSmellApp.AnalysisPath + IdentifyBadSmell(nil), IdentifyBadSmell(ignore), IdentifyBadSmell(nil) again on the same analysis + SortSmellByType) and cli (`coca bs [-p DIR] [-x kinds] [-s type]`, bs.json; DIR absolute, relative, ./DIR, DIR/ or the default . from inside; flags spelt -x v, -x=v, --ignore v, --ignore=v; biased to groups whose sizes ascend in report order, also across a change in the number of digits) draw random vectors biased to the thresholds. Oracle: findings of the seven kinds computed from the printer's line record (kind, file, line for method-level kinds, size for sized kinds); other kinds are ignored. Non-trivial = some parameter at threshold-1/threshold/threshold+1 (L 29-31, P 4-6, M 19-21, I/S 7-9, H 3-5, or a class with 0/1 methods); distinct = the vector with ignore list, sort flag and entry point.",
+		"the line a declaration starts on is the line of its modifiers and return type: no annotations on lines of their own above a method; one top-level type per file; no nested, local or anonymous types; constructors only where they cannot affect a method count near a threshold",
+		"getters/setters are conventional (getX() / setX(v), short bodies); ordinary method names do not start with get/set (is-accessors are not generated: the statement does not say whether they are getters)",
 		"else-if branches, ifs inside any nested block and loop conditions do not count as top-level ifs (DESIGN C10)",
 		"graphConnectedCall findings (third-party state leak, DESIGN section 6 row 22) are left out of every comparison",
 		"a file without any type (package-info.java) must produce no finding of the seven kinds",
+		"file names are compared as the tool prints them: the directory as named on the command line (cleaned) joined with the path below it",
+		"generator features "+varargsFeature+" and "+interfaceBodyFeature+" belong to two defects found while widening (notes/proposed/C10-*.patch, replays/C10/fixed-varargs-parameter.json, fixed-interface-method-body.json); they are switched off only if known_findings.json lists them as known",
 		"the quick tier's sweep is a reduced cross because the shipped grammar needs ~6 ms per classic switch statement in full LL mode; the generated files are validated with the shipped parser in two stages (SLL, then LL on error)")
 	pbt.Register("sweep", 1, 1, genSweep, checkSweep)
 	pbt.Register("vec", 200, 1500, genCase, checkAPI)
